@@ -682,6 +682,8 @@ func (c *hdClient) waitForId(id string, timeout time.Duration) bool {
 
 type hdBackendCfg struct {
 	Limit int `json:"limit,omitempty"`
+	// on the first backend of a case: the server is started without an internal secret (no internal client can log in)
+	NoInternalSecret bool `json:"nosecret,omitempty"`
 }
 
 type hdSystem struct {
@@ -696,6 +698,7 @@ type hdSystem struct {
 	clients  map[int]*hdClient
 	loopBusy atomic.Int32
 	quit     chan struct{}
+	noSecret bool // started without an internal secret
 	loopDone chan struct{}
 	baseline map[string]bool // goroutines in "syscall" state at idle start
 	unsettled int
@@ -749,7 +752,11 @@ func newHdSystem(t *testing.T, backends []hdBackendCfg) *hdSystem {
 	config.AddOption("backend", "allowhttp", "true")
 	config.AddOption("sessions", "hashkey", "12345678901234567890123456789012")
 	config.AddOption("sessions", "blockkey", "09876543210987654321098765432109")
-	config.AddOption("clients", "internalsecret", hdInternalSecret)
+	if len(backends) > 0 && backends[0].NoInternalSecret {
+		s.noSecret = true
+	} else {
+		config.AddOption("clients", "internalsecret", hdInternalSecret)
+	}
 	config.AddOption("geoip", "url", "none")
 
 	r := mux.NewRouter()
